@@ -7,8 +7,9 @@ contract("Problem.evaluate", abstract=True, params=["self", "individual"], props
                   "self.ghost_last_vec is individual.vector", "self.ghost_last_ret is result"],
          raises={"TimeoutError": ["self.ghost_calls == old(self.ghost_calls) + 1", "self.ghost_last_arg is individual"],
                  "RuntimeError": ["self.ghost_calls == old(self.ghost_calls) + 1", "self.ghost_last_arg is individual"],
-                 "OtherError": ["self.ghost_calls == old(self.ghost_calls) + 1", "self.ghost_last_arg is individual"]},
-         modifies=["self.ghost_calls", "self.ghost_last_arg", "self.ghost_last_vec", "self.ghost_last_ret"],
+                 "OtherError": ["self.ghost_calls == old(self.ghost_calls) + 1", "self.ghost_last_arg is individual",
+                                "self.ghost_nontransient == old(self.ghost_nontransient) + 1"]},
+         modifies=["self.ghost_calls", "self.ghost_last_arg", "self.ghost_last_vec", "self.ghost_last_ret", "self.ghost_nontransient"],
          allocates=["$list.Real", "$len.Real"])
 contract("Problem.predict", abstract=True, params=["self", "individual"], props=["C19"],
          trusted="A2 user-supplied predict hook (may decline by returning None)",
@@ -41,7 +42,7 @@ contract("artap.surrogate:SurrogateModelEval.evaluate", props=["C19", "C05"],
                   "self.problem.ghost_last_vec is individual.vector"],
          raises={e: ["self.problem.ghost_calls == old(self.problem.ghost_calls) + 1"] for e in ("TimeoutError", "RuntimeError", "OtherError")},
          modifies=["self.eval_counter", "self.problem.ghost_calls", "self.problem.ghost_last_arg", "self.problem.ghost_last_vec",
-                   "self.problem.ghost_last_ret"],
+                   "self.problem.ghost_last_ret", "self.problem.ghost_nontransient"],
          allocates=["$list.Real", "$len.Real"])
 
 _TRAIN_DUE = "(self.train_step != -1 and self.eval_counter % self.train_step == 0)"
@@ -54,7 +55,8 @@ _EI_ENS = ["self.problem.ghost_calls == old(self.problem.ghost_calls) + 1", "seq
            "forall(lambda i: self.y_data[i] is old(self.y_data[i]), 0, old(len(self.y_data)))",
            "self.ghost_trains == old(self.ghost_trains) + (1 if %s else 0)" % _TRAIN_DUE]
 _EI_MOD = ["self.eval_counter", "self.trained", "self.ghost_trains", "self.regressor", "list(self.x_data)", "list(self.y_data)",
-           "self.problem.ghost_calls", "self.problem.ghost_last_arg", "self.problem.ghost_last_vec", "self.problem.ghost_last_ret"]
+           "self.problem.ghost_calls", "self.problem.ghost_last_arg", "self.problem.ghost_last_vec", "self.problem.ghost_last_ret",
+           "self.problem.ghost_nontransient"]
 _EI_REQ = ["valid(self.problem)", "self.train_step != 0", "self.x_data is not self.y_data", "valid(self.x_data)", "valid(self.y_data)"]
 _EI_RAISES = {e: ["self.problem.ghost_calls == old(self.problem.ghost_calls) + 1", "self.eval_counter == old(self.eval_counter)",
                   "unchanged(self.x_data)", "unchanged(self.y_data)"] for e in ("TimeoutError", "RuntimeError", "OtherError")}
